@@ -382,3 +382,218 @@ Proof.
   { intro E. rewrite E in Hl2. simpl in Hl2. lia. }
   exists r, (removelast l2). unfold ldown in l2. fold l2. rewrite Hp. auto.
 Qed.
+
+(* ---------------------------------------------------------------- the invariant *)
+
+Definition cm_inv (s : cmap) : Prop :=
+  hok (byAge s) /\ idx_ok (byAge s) (byAddr s) /\ ksorted (byAddr s) /\
+  length (byAddr s) = length (byAge s) /\
+  NoDup (map c_qid (byAge s)) /\ (forall r, In r (byAge s) -> c_qid r < next_qid s).
+
+Lemma cm_inv_R : forall s, cm_inv s -> cmR (next_qid s) (dead s) s (byAge s).
+Proof. intros s (H1 & H2 & H3 & H4 & _). unfold cmR. auto 10. Qed.
+
+Lemma cm_inv_of_R : forall nq dd s l, cmR nq dd s l -> hok l -> NoDup (map c_qid l) ->
+  (forall r, In r l -> c_qid r < nq) -> cm_inv s.
+Proof.
+  intros nq dd s l (H1 & H2 & H3 & H4 & H5 & H6) Hh Hn Hb. unfold cm_inv. subst l. rewrite H5. auto 10.
+Qed.
+
+Lemma cm_inv_empty : cm_inv cm_empty.
+Proof.
+  unfold cm_inv, cm_empty; simpl. repeat split; try constructor; try tauto.
+  - intros p c a b _ H. destruct p; discriminate.
+  - discriminate.
+  - unfold addr_at. destruct i; discriminate.
+Qed.
+
+Lemma map_set_nth_same : forall A B (f : A -> B) l i x y,
+  nth_error l i = Some y -> f x = f y -> map f (set_nth i x l) = map f l.
+Proof.
+  induction l; intros [|i] x y H E; simpl in *; try discriminate; auto.
+  - inversion H; subst. congruence.
+  - f_equal. eapply IHl; eauto.
+Qed.
+
+Lemma addr_at_set_nth_same : forall l i x y k,
+  nth_error l i = Some y -> c_addr x = c_addr y -> addr_at (set_nth i x l) k = addr_at l k.
+Proof.
+  intros. unfold addr_at. destruct (Nat.eq_dec k i).
+  - subst. rewrite set_nth_eq by (eapply nth_error_lt; eauto). rewrite H. simpl. congruence.
+  - rewrite set_nth_neq; auto.
+Qed.
+
+Lemma perm_qids : forall (l l' : list crec), Permutation l l' -> Permutation (map c_qid l) (map c_qid l').
+Proof. intros. apply Permutation_map. auto. Qed.
+
+(* SendQueue keeps the invariant *)
+Lemma send_queue_inv : forall a now s, cm_inv s -> cm_inv (fst (send_queue a now s)).
+Proof.
+  intros a now s Hinv. pose proof (cm_inv_R s Hinv) as HR.
+  destruct Hinv as (Hh & Hidx & Hks & Hlen & Hnd & Hb).
+  unfold send_queue. destruct (amap_get a (byAddr s)) as [i|] eqn:G.
+  - assert (Ha: addr_at (byAge s) i = Some a) by (apply Hidx; auto).
+    unfold addr_at in Ha. destruct (nth_error (byAge s) i) as [r|] eqn:Hr; [|discriminate]. simpl in Ha.
+    simpl. set (r' := set_seen r now). set (l1 := set_nth i r' (byAge s)).
+    assert (Hi: i < length (byAge s)) by (eapply nth_error_lt; eauto).
+    assert (HR1: cmR (next_qid s) (dead s) (set_byAge s l1) l1).
+    { destruct HR as (_ & H2 & H3 & H4 & H5 & H6). unfold cmR, set_byAge; simpl.
+      split; auto. split; [| split; [auto | split; [| auto]]].
+      - intros b k. unfold l1. rewrite (addr_at_set_nth_same (byAge s) i r' r k Hr eq_refl). apply H2.
+      - unfold l1. rewrite cm_set_nth_length. auto. }
+    pose proof (cm_fix_sim _ _ _ _ i HR1) as HR2.
+    assert (Hi1: i < length l1) by (unfold l1; rewrite cm_set_nth_length; auto).
+    specialize (HR2 Hi1).
+    destruct (lfix_spec crec rec_less rec_less_irrefl rec_less_trans rec_less_negtrans (byAge s) i r' Hh Hi) as [Hh2 Hp2].
+    fold l1 in Hh2, Hp2.
+    eapply cm_inv_of_R; eauto.
+    + eapply Permutation_NoDup; [apply Permutation_sym, perm_qids, Hp2|].
+      unfold l1. rewrite (map_set_nth_same _ _ c_qid (byAge s) i r' r Hr eq_refl). auto.
+    + intros x Hx. eapply Permutation_in in Hx; [|exact Hp2].
+      assert (In (c_qid x) (map c_qid l1)) by (apply in_map; auto).
+      unfold l1 in H. rewrite (map_set_nth_same _ _ c_qid (byAge s) i r' r Hr eq_refl) in H.
+      apply in_map_iff in H. destruct H as (y & Hy1 & Hy2). rewrite <- Hy1. auto.
+  - simpl. set (r := mkrec a now (next_qid s) []).
+    set (s1 := mkcm (byAge s) (byAddr s) (S (next_qid s)) (dead s)).
+    assert (HR1: cmR (S (next_qid s)) (dead s) s1 (byAge s)).
+    { destruct HR as (_ & H2 & H3 & H4 & H5 & H6). unfold cmR, s1; simpl. auto 10. }
+    pose proof (cm_push_sim _ _ _ _ r HR1 G) as HR2.
+    pose proof (lpush_heap_ok crec rec_less rec_less_irrefl rec_less_trans rec_less_negtrans (byAge s) r Hh) as Hh2.
+    pose proof (lpush_perm crec rec_less (byAge s) r) as Hp2.
+    eapply cm_inv_of_R; eauto.
+    + eapply Permutation_NoDup; [apply Permutation_sym, perm_qids, Hp2|].
+      simpl. constructor; auto. intro X. apply in_map_iff in X. destruct X as (y & Hy1 & Hy2).
+      specialize (Hb y Hy2). lia.
+    + intros x Hx. eapply Permutation_in in Hx; [|exact Hp2]. destruct Hx as [Hx|Hx].
+      * subst x. simpl. lia.
+      * specialize (Hb x Hx). lia.
+Qed.
+
+(* one heap.Pop of the client map *)
+Lemma cm_pop_inv : forall s m, cm_inv s -> nth_error (byAge s) 0 = Some m ->
+  let s' := fst (cm_heap_pop s) in
+  cm_inv s' /\ Permutation (byAge s) (m :: byAge s') /\
+  dead s' = dead s ++ [(c_qid m, c_q m)] /\ next_qid s' = next_qid s /\
+  (forall y, In y (byAge s) -> rec_less y m = false).
+Proof.
+  intros s m Hinv Hm. pose proof (cm_inv_R s Hinv) as HR.
+  destruct Hinv as (Hh & Hidx & Hks & Hlen & Hnd & Hb).
+  destruct (lpop_spec crec rec_less rec_less_irrefl rec_less_trans rec_less_negtrans (byAge s) m Hh Hm)
+    as (l' & Hpop & Hh' & Hperm & Hmin).
+  destruct (cm_pop_sim _ _ _ _ HR) as (r & l2 & Hpop2 & Hsnd & HR2).
+  { intro E. rewrite E in Hm. discriminate. }
+  rewrite Hpop in Hpop2. inversion Hpop2; subst r l2. clear Hpop2.
+  simpl. pose proof HR2 as (E1 & _ & _ & _ & E5 & E6).
+  split; [| split; [| split; [| split]]]; auto.
+  - eapply cm_inv_of_R; eauto.
+    + apply perm_qids in Hperm. eapply Permutation_NoDup in Hnd; [|exact Hperm].
+      simpl in Hnd. inversion Hnd; auto.
+    + intros x Hx. apply Hb. eapply Permutation_in; [apply Permutation_sym; exact Hperm|]. right; auto.
+  - rewrite E1. auto.
+Qed.
+
+(* ---------------------------------------------------------------- removeExpired *)
+
+Definition live_addr (s : cmap) (a : N) : Prop := exists r, In r (byAge s) /\ c_addr r = a.
+
+Definition re_spec (now timeout : Z) (s s' : cmap) : Prop :=
+  cm_inv s' /\ next_qid s' = next_qid s /\
+  (* nothing is left that has been idle for the timeout *)
+  (forall r, In r (byAge s') -> expired now timeout r = false) /\
+  (* every record is either kept unchanged, or it had been idle for the timeout and its queue was closed *)
+  (forall r, In r (byAge s) ->
+      In r (byAge s') \/ (expired now timeout r = true /\ In (c_qid r, c_q r) (dead s'))) /\
+  (* no record appears, closed queues stay closed, and only expired records' queues are closed *)
+  (forall r, In r (byAge s') -> In r (byAge s)) /\
+  (forall e, In e (dead s) -> In e (dead s')) /\
+  (forall e, In e (dead s') -> In e (dead s) \/
+      exists r, In r (byAge s) /\ e = (c_qid r, c_q r) /\ expired now timeout r = true /\ ~ In r (byAge s')).
+
+Lemma re_spec_id : forall now timeout s, cm_inv s ->
+  (forall r, In r (byAge s) -> expired now timeout r = false) -> re_spec now timeout s s.
+Proof. intros. unfold re_spec. repeat (split; auto). Qed.
+
+Lemma remove_expired_aux_spec : forall fuel now timeout s, cm_inv s -> length (byAge s) <= fuel ->
+  re_spec now timeout s (remove_expired_aux fuel now timeout s).
+Proof.
+  induction fuel; intros now timeout s Hinv Hlen.
+  - simpl. destruct (byAge s) eqn:E; [|simpl in Hlen; lia].
+    apply re_spec_id; auto. intros r Hr; rewrite E in Hr; destruct Hr.
+  - simpl. destruct (byAge s) as [|r0 rest] eqn:E.
+    + apply re_spec_id; auto. intros r Hr; rewrite E in Hr; destruct Hr.
+    + destruct (expired now timeout r0) eqn:Ex.
+      * assert (Hm: nth_error (byAge s) 0 = Some r0) by (rewrite E; auto).
+        destruct (cm_pop_inv s r0 Hinv Hm) as (Hinv1 & Hperm & Hdead & Hnq & Hmin).
+        set (s1 := fst (cm_heap_pop s)) in *.
+        assert (Hlen1: length (byAge s1) <= fuel).
+        { apply Permutation_length in Hperm. simpl in Hperm. rewrite E in *. simpl in *. lia. }
+        destruct (IHfuel now timeout s1 Hinv1 Hlen1) as (I1 & I2 & I3 & I4 & I5 & I6 & I7).
+        set (s' := remove_expired_aux fuel now timeout s1) in *.
+        unfold re_spec.
+        assert (Hnd: NoDup (byAge s)).
+        { destruct Hinv as (_ & _ & _ & _ & Hq & _). eapply NoDup_map_inv; eauto. }
+        assert (Hr0: ~ In r0 (byAge s1)).
+        { eapply Permutation_NoDup in Hnd; [|exact Hperm]. inversion Hnd; auto. }
+        split; [auto|]. split; [congruence|]. split; [auto|]. split; [|split; [|split]].
+        -- intros r Hr. eapply Permutation_in in Hr; [|exact Hperm]. destruct Hr as [Hr|Hr].
+           ++ subst r. right. split; auto. apply I6. rewrite Hdead. apply in_or_app. right. left. auto.
+           ++ apply I4. auto.
+        -- intros r Hr. apply I5 in Hr. eapply Permutation_in; [apply Permutation_sym; exact Hperm|]. right. auto.
+        -- intros e He. apply I6. rewrite Hdead. apply in_or_app. auto.
+        -- intros e He. apply I7 in He. destruct He as [He|(r & Hr1 & Hr2 & Hr3 & Hr4)].
+           ++ rewrite Hdead in He. apply in_app_or in He. destruct He as [He|[He|[]]]; auto.
+              right. exists r0. rewrite E. split; [left; auto|]. split; [auto|]. split; [auto|].
+              intro X. apply I5 in X. auto.
+           ++ right. exists r. split; [|auto].
+              eapply Permutation_in; [apply Permutation_sym; exact Hperm|]. right. auto.
+      * apply re_spec_id; auto.
+        intros r Hr.
+        assert (Hm: nth_error (byAge s) 0 = Some r0) by (rewrite E; auto).
+        destruct Hinv as (Hh & _).
+        pose proof (heap_ok_root_min crec rec_less rec_less_irrefl rec_less_negtrans (byAge s) r0 Hh Hm r Hr) as Hle.
+        unfold expired, rec_less in *. apply Z.ltb_ge in Hle. rewrite Z.geb_leb in Ex. apply Z.leb_gt in Ex.
+        destruct (now - c_seen r >=? timeout)%Z eqn:G; auto. rewrite Z.geb_leb in G. apply Z.leb_le in G. lia.
+Qed.
+
+Lemma remove_expired_inv : forall now timeout s, cm_inv s -> cm_inv (remove_expired now timeout s).
+Proof. intros. unfold remove_expired. apply remove_expired_aux_spec; auto. Qed.
+
+(* ---------------------------------------------------------------- all operation sequences *)
+
+Lemma cm_step_inv : forall s o, cm_inv s -> cm_inv (cm_step s o).
+Proof. intros s [a now|now timeout] H; simpl; [apply send_queue_inv | apply remove_expired_inv]; auto. Qed.
+
+Lemma cm_run_inv : forall ops s, cm_inv s -> cm_inv (cm_run ops s).
+Proof. induction ops; intros s H; simpl; auto. apply IHops. apply cm_step_inv. auto. Qed.
+
+Theorem cm_index_consistent : forall ops a i,
+  let s := cm_run ops cm_empty in
+  amap_get a (byAddr s) = Some i <-> exists r, nth_error (byAge s) i = Some r /\ c_addr r = a.
+Proof.
+  intros ops a i s. pose proof (cm_run_inv ops cm_empty cm_inv_empty) as (_ & Hidx & _).
+  fold s in Hidx. rewrite (Hidx a i). unfold addr_at.
+  destruct (nth_error (byAge s) i) as [r|]; simpl; split.
+  - intro H. inversion H. eauto.
+  - intros (r' & H1 & H2). inversion H1. congruence.
+  - discriminate.
+  - intros (r' & H1 & _). discriminate.
+Qed.
+
+(* the Len() panic ("inconsistent clientMap") and the Push panic ("duplicate address") are unreachable *)
+Theorem cm_no_inconsistency : forall ops,
+  let s := cm_run ops cm_empty in
+  length (byAddr s) = length (byAge s) /\ NoDup (map c_addr (byAge s)) /\ hok (byAge s).
+Proof.
+  intros ops s. pose proof (cm_run_inv ops cm_empty cm_inv_empty) as (Hh & Hidx & _ & Hlen & _).
+  fold s in Hh, Hidx, Hlen. split; auto. split; auto.
+  apply (proj2 (NoDup_nth_error (map c_addr (byAge s)))).
+  intros i j Hi Hij. rewrite map_length in Hi.
+  destruct (nth_error_some_of_lt _ _ _ Hi) as [r Hr].
+  rewrite (map_nth_error c_addr _ _ Hr) in Hij. symmetry in Hij.
+  destruct (nth_error (byAge s) j) as [r'|] eqn:Hr'.
+  - rewrite (map_nth_error c_addr _ _ Hr') in Hij.
+    apply (idx_ok_inj (byAge s) (byAddr s) i j (c_addr r) Hidx); unfold addr_at; [rewrite Hr | rewrite Hr']; simpl; congruence.
+  - exfalso. apply nth_error_None in Hr'.
+    assert (nth_error (map c_addr (byAge s)) j = None) by (apply nth_error_None; rewrite map_length; auto).
+    congruence.
+Qed.
